@@ -428,6 +428,14 @@ func checkBytesAsGo(data []byte) string {
 		}
 		return ""
 	}
+	// a back quote in the text after an @tag marker may end up inside a raw-string tag literal, which cannot
+	// hold it (outside the domain of the injector, see C06): such inputs assert crash-freedom only
+	for _, line := range strings.Split(string(data), "\n") {
+		if i := strings.Index(line, "@tag"); i >= 0 && strings.Contains(line[i:], "`") {
+			ev.Class("bytes: back quote after an @tag marker (crash-freedom only)")
+			return ""
+		}
+	}
 	if m := sameDeclarations(string(data), string(out)); m != "" {
 		return m
 	}
